@@ -99,6 +99,12 @@ class IdxFunc:
                 if tag(z) == 'field' and z[2] == 0 and z[3] is not None and z[3].endswith('linalg::array::vec::Vector'):
                     base = z[1]
                     d.setdefault(z, (('field', base, 1, 'usize'), ('field', base, 2, 'usize')))
+        # Matrix::data(m) is a view of m.data
+        for t in self._all_terms():
+            for z in subterms(t):
+                if tag(z) == 'call' and z[1] in ('linalg::array::matrix::Matrix::data', 'linalg::array::matrix::Matrix::data_mut') and z[2]:
+                    base = z[2][0]
+                    d.setdefault(z, (('field', base, 1, 'usize'), ('field', base, 2, 'usize')))
         # locally built buffers
         for t in self._all_terms():
             for z in subterms(t):
